@@ -9,6 +9,7 @@ import (
 	"path/filepath"
 	"strings"
 	"sync"
+	"sync/atomic"
 	"time"
 )
 
@@ -27,11 +28,15 @@ type solver struct {
 }
 
 var solvers = []solver{
-	{"z3-5.1", func(f string, t int) []string { return []string{"z3-new", fmt.Sprintf("-t:%d", t*1000), fmt.Sprintf("-T:%d", t*3+10), f} }},
+	{"z3-5.1", func(f string, t int) []string {
+		return []string{"z3-new", fmt.Sprintf("-t:%d", t*1000), fmt.Sprintf("-T:%d", t*3+10), f}
+	}},
 	{"cvc5", func(f string, t int) []string {
 		return []string{"cvc5", "--strings-exp", "--incremental", fmt.Sprintf("--tlimit-per=%d", t*1000), f}
 	}},
-	{"z3-4.8", func(f string, t int) []string { return []string{"z3", fmt.Sprintf("-t:%d", t*1000), fmt.Sprintf("-T:%d", t+2), f} }},
+	{"z3-4.8", func(f string, t int) []string {
+		return []string{"z3", fmt.Sprintf("-t:%d", t*1000), fmt.Sprintf("-T:%d", t+2), f}
+	}},
 }
 
 func runSolver(s solver, file string, toS int) (string, float64) {
@@ -43,6 +48,11 @@ func runSolverN(s solver, file string, toS int, nChecks int) (string, float64) {
 	hard := toS*3 + 20
 	if nChecks > 1 {
 		hard = toS*nChecks/4 + 120
+		// a unit whose incremental run needs more than this is not going to be discharged (on the unchanged tree the slowest
+		// unit takes a few seconds): the obligations without an answer go to the portfolio, which gives up after four failures
+		if hard > 12*toS {
+			hard = 12 * toS
+		}
 	}
 	ctx, cancel := context.WithTimeout(context.Background(), time.Duration(hard)*time.Second)
 	defer cancel()
@@ -149,6 +159,9 @@ func solveUnit(u *Unit, cfg *SolverCfg, only func(*Obligation) bool) {
 		}
 	}
 	per := dt / float64(nRun)
+	if os.Getenv("GOVC_SLOW") != "" && dt > 5 {
+		fmt.Fprintf(os.Stderr, "UNIT-INCREMENTAL %.1fs %d obligations %s\n", dt, nRun, u.Name)
+	}
 	// results come back for the obligations that were run, in order
 	resOf := map[*Obligation]string{}
 	ri := 0
@@ -173,6 +186,7 @@ func solveUnit(u *Unit, cfg *SolverCfg, only func(*Obligation) bool) {
 	}
 	var wg sync.WaitGroup
 	sem := make(chan struct{}, 4)
+	var nFailed int32 // obligations of this unit the portfolio could not discharge either
 	for _, ob := range sc.obs {
 		r := resOf[ob]
 		ob.Result, ob.Solver, ob.TimeS = r, solvers[0].name, per
@@ -191,10 +205,24 @@ func solveUnit(u *Unit, cfg *SolverCfg, only func(*Obligation) bool) {
 		}
 		wg.Add(1)
 		sem <- struct{}{}
+		if !cfg.All && atomic.LoadInt32(&nFailed) >= 4 {
+			// the unit is reported with four undischarged obligations already: the rest is not re-examined (never happens
+			// on a tree where the obligations hold)
+			if ob.Result == "unsat" || ob.Result == "skipped" {
+				ob.Result = "unknown"
+			}
+			ob.Detail = "not re-examined by the portfolio: four obligations of this unit are undischarged already; first solver: " + r + "\n"
+			<-sem
+			wg.Done()
+			continue
+		}
 		go func(ob *Obligation, first string) {
 			defer wg.Done()
 			defer func() { <-sem }()
 			portfolio(u, ob, cfg, first)
+			if !ob.Cover && ob.Result != "unsat" {
+				atomic.AddInt32(&nFailed, 1)
+			}
 		}(ob, r)
 	}
 	wg.Wait()
@@ -276,11 +304,20 @@ func portfolioWith(u *Unit, ob *Obligation, cfg *SolverCfg, first string, patien
 			fmt.Fprintf(os.Stderr, "PORTFOLIO-UNDECIDED %s patient=%v\n%s", ob.Name, patient, ob.Detail)
 		}
 		if !patient && cfg.PatienceS > cfg.TimeoutS && !cfg.NoPatience[ob.Name] {
-			long := *cfg
-			long.TimeoutS = cfg.PatienceS
-			saved := ob.Detail
-			portfolioWith(u, ob, &long, first, true)
-			ob.Detail = saved + "second attempt with " + fmt.Sprint(cfg.PatienceS) + " s per solver:\n" + ob.Detail
+			// one patient attempt at a time per unit; after one that ended undecided the rest of the unit is not retried
+			// (the unit is reported in any case)
+			u.patientMu.Lock()
+			if u.patientFails < 1 {
+				long := *cfg
+				long.TimeoutS = cfg.PatienceS
+				saved := ob.Detail
+				portfolioWith(u, ob, &long, first, true)
+				ob.Detail = saved + "second attempt with " + fmt.Sprint(cfg.PatienceS) + " s per solver:\n" + ob.Detail
+				if ob.Result != "unsat" && ob.Result != "sat" {
+					u.patientFails++
+				}
+			}
+			u.patientMu.Unlock()
 		}
 	}
 }
